@@ -12,7 +12,9 @@ VARIABLES type, dim, order, prog
 vars == <<type, dim, order, prog>>
 
 Seeds == {<<"Line", "line", 1>>, <<"Rectangle", "quad", 2>>, <<"Cube", "hexahedron", 3>>, <<"Grid2", "quad", 2>>, <<"Grid3", "hexahedron", 3>>,
-          <<"Trapezoid", "quad", 2>>, <<"TrapezoidPrism", "hexahedron", 3>>}
+          <<"Trapezoid", "quad", 2>>, <<"TrapezoidPrism", "hexahedron", 3>>,
+          \* the same grids from INTEGER coordinate vectors (np.arange): what comes later must not depend on the input's number type
+          <<"GridInt2", "quad", 2>>, <<"GridInt3", "hexahedron", 3>>}
 Init == \E s \in Seeds : type = s[2] /\ dim = s[3] /\ order = 1 /\ prog = <<s[1]>>
 
 Step(op, t2, d2, o2) == /\ Len(prog) <= MaxDepth /\ type' = t2 /\ dim' = d2 /\ order' = o2 /\ prog' = Append(prog, op)
